@@ -92,6 +92,8 @@ CONFIGS = [
     ('num', {'max': 5}, 7), ('num', {'max': 5}, 5), ('num', {'min': 2}, 1), ('num', {'min': 8, 'max': 2}, 5), ('num', {}, 'x'), ('num', {}, 11),
     ('cnt', {'max': 5}, 6), ('cnt', {}, 2.5), ('cnt', {}, 9),
     ('nosuchparam', {}, 1),
+    # limits of the MEMBERS set through the array parameter: inverted ones are rejected (stated expectation, not derived from the code)
+    ('arr', {'min': 5, 'max': 3}, [4], True), ('arr', {'min': 2, 'max': 3}, [2.5], False),
 ]
 
 
@@ -103,14 +105,16 @@ def gen_module_config(tier, rng):
     from frappy.config import Param
     combos = [[c] for c in CONFIGS]
     for _ in range(30 if tier == 'quick' else 200):
-        a, b = rng.sample(CONFIGS, 2)
+        a, b = rng.sample([c for c in CONFIGS if len(c) == 3], 2)
         if a[0] != b[0]:
             combos.append([a, b])
     for combo in combos:
         Dev = _cfg_class()
         cfg, reject, values, props = {'description': 'd'}, False, {}, {}
-        for pname, overrides, value in combo:
+        for pname, overrides, value, *stated in combo:
             cfg[pname] = Param(value, **overrides)
+            if stated and stated[0]:
+                reject = True
             if pname not in Dev.accessibles:
                 reject = True
                 continue
@@ -121,15 +125,66 @@ def gen_module_config(tier, rng):
                 dt.checkProperties()
                 values[pname] = dt(value)
                 for k, v in overrides.items():
-                    props[(pname, k)] = getattr(dt, k)
+                    if hasattr(dt, k):          # (member properties set through a container are not attributes of the container)
+                        props[(pname, k)] = getattr(dt, k)
             except Exception:
                 reject = True
         srv = types.SimpleNamespace(dispatcher=types.SimpleNamespace(announce_update=lambda m, p: None),
                                     secnode=types.SimpleNamespace(equipment_id='verif', name='node'))
         obj = Dev.__new__(Dev)
-        yield dict(label=f'cfg={[(p, o, v) for p, o, v in combo]}', self=obj,
+        yield dict(label=f'cfg={[tuple(c[:3]) for c in combo]}', self=obj,
                    args={'name': 'm', 'logger': nodelib.quiet_logger(), 'cfgdict': cfg, 'srv': srv},
-                   ghosts={'expect_reject': reject, 'expect_values': {} if reject else values, 'expect_props': {} if reject else props})
+                   ghosts={'expect_reject': reject, 'expect_values': {} if reject else values, 'expect_props': {} if reject else props,
+                           'expect_units': {}, 'earlier': []})
 
 
-GENS = {'Module.__init__': gen_module_config,'Module.writeInitParams': gen_write_init}
+def _unit_class():
+    from frappy.modules import Readable, Parameter
+    from frappy.datatypes import FloatRange, TupleOf, StructOf, ArrayOf
+
+    class Sensor(Readable):
+        value = Parameter('v', FloatRange(unit='K'), default=0)
+        speed = Parameter('rate', FloatRange(unit='$/min'), default=0, readonly=False)
+        window = Parameter('pair', TupleOf(FloatRange(unit='$'), FloatRange(unit='s')), default=(0, 0), readonly=False)
+        ctrl = Parameter('struct', StructOf(p=FloatRange(unit='%/$'), i=FloatRange(unit='$')), default={'p': 0, 'i': 0}, readonly=False)
+        curve = Parameter('array', ArrayOf(FloatRange(unit='$'), 0, 3), default=(), readonly=False)
+    declared = {'speed': ['$/min'], 'window': ['$', 's'], 'ctrl': ['$', '%/$'], 'curve': ['$'], 'value': ['$']}
+    return Sensor, declared
+
+
+def gen_units(tier, rng):
+    """several instances of ONE class whose container / scalar parameters use the main unit ($), each configured with a different main
+    unit (or none): every order of 3 of the units {class default, mbar, l/min, T}"""
+    import itertools
+    import types
+    from bounded import nodelib
+    from frappy.config import Param
+    units = [None, 'mbar', 'l/min', 'T']
+    for order in itertools.permutations(units, 3):
+        Sensor, declared = _unit_class()
+        earlier = []
+        for i, unit in enumerate(order):
+            main = unit or 'K'
+            cfg = {'description': 'd'}
+            if unit:
+                cfg['value'] = Param(unit=unit)
+            expect = {p: [u.replace('$', main) for u in us] for p, us in declared.items()}
+            srv = types.SimpleNamespace(dispatcher=types.SimpleNamespace(announce_update=lambda m, p: None),
+                                        secnode=types.SimpleNamespace(equipment_id='verif', name='node'))
+            obj = Sensor.__new__(Sensor)
+            yield dict(label=f'instance {i} of one class, main units in creation order {order}', self=obj,
+                       args={'name': f'm{i}', 'logger': nodelib.quiet_logger(), 'cfgdict': cfg, 'srv': srv},
+                       ghosts={'expect_reject': False, 'expect_values': {}, 'expect_props': {}, 'expect_units': expect,
+                               'earlier': list(earlier)})
+            earlier.append((obj, expect))
+
+
+def gen_init_all(tier, rng):
+    """(a) one configured parameter at a time (28 combinations of property overrides and values over 5 datatypes, incl. unknown names) and
+    random pairs of them, oracle = overrides applied to a copy of the class datatype; (b) 3 instances of ONE class with $-units in scalar,
+    tuple, struct and array parameters, each configured with a different main unit, every order of 3 of 4 units"""
+    yield from gen_module_config(tier, rng)
+    yield from gen_units(tier, rng)
+
+
+GENS = {'Module.__init__': gen_init_all,'Module.writeInitParams': gen_write_init}
